@@ -502,3 +502,32 @@ Section Concat.
     destruct rm; [rewrite RMF|]; cbn; (split; [reflexivity|]); (split; [exact O|]); (split; [exact P|]); [reflexivity|intros D; discriminate].
   Qed.
 End Concat.
+
+(* ------------------------------------------------------------------ finding F4: the MT model fails on LZ4 frame ++ legacy frame *)
+Definition f4_lz4 : list byte := [4; 34; 77; 24; 96; 64; 130; 0; 0; 0; 0].           (* empty LZ4 frame *)
+Definition f4_block : list byte := [80; 97; 98; 99; 100; 101].                        (* token 0x50, 5 literals *)
+Definition f4_witness : list frame := [FLz4 f4_lz4 []; FLegacy [(f4_block, [97; 98; 99; 100; 101])]].
+
+Theorem mt_refuted :
+  Forall (valid_frame spec_decode) f4_witness /\
+  o_exit (decompress_file spec_fdec spec_bdec true false false true false no_faults (enc_all f4_witness)) = 34 /\
+  o_exit (decompress_file spec_fdec spec_bdec true false false false false no_faults (enc_all f4_witness)) = 34 /\
+  (let o := decompress_file spec_fdec spec_bdec false false false true false no_faults (enc_all f4_witness) in
+   o_exit o = 0 /\ o_out o = contents f4_witness).
+Proof.
+  split; [repeat constructor; vm_compute; try reflexivity; intros D; discriminate|].
+  split; [vm_compute; reflexivity|]. split; [vm_compute; reflexivity|]. vm_compute. split; reflexivity.
+Qed.
+
+(* the full-strength MT statement (no restriction on the order of frames) is false for the current code *)
+Definition mt_concat_full_statement : Prop :=
+  forall fs sk rm fl, benign fl -> Forall (valid_frame spec_decode) fs ->
+    let o := decompress_file spec_fdec spec_bdec true false false sk rm fl (enc_all fs) in
+    o_exit o = 0 /\ o_out o = contents fs.
+
+Theorem mt_full_refuted : ~ mt_concat_full_statement.
+Proof.
+  intros H. destruct mt_refuted as [V [E _]].
+  destruct (H f4_witness true false no_faults ltac:(repeat split) V) as [E0 _].
+  rewrite E in E0. discriminate.
+Qed.
